@@ -4244,6 +4244,106 @@ impl Handler {
         self.sessions.stats()
     }
 
+    /// Authorize every logical line of a program before any of it runs.
+    ///
+    /// Mirrors the executor (`QueryJob::execute`): the same `parse_statement(line)`, and a running
+    /// KG that follows `.kg use` / `.kg create` exactly when the executor would switch. Lines that
+    /// do not parse are skipped here - phase 1 of the executor rejects such a program as a whole.
+    fn authorize_program(
+        &self,
+        auth: Option<&crate::auth::AuthIdentity>,
+        start_kg: Option<&str>,
+        lines: &[String],
+    ) -> Result<(), String> {
+        use crate::auth::{Role, INTERNAL_KG};
+        let internal_denied = || format!("Access denied: '{INTERNAL_KG}' is a system knowledge graph");
+        let non_admin = auth.filter(|i| i.role != Role::Admin);
+
+        let mut running_kg: Option<String> = start_kg.map(str::to_string);
+        // KGs that exist while the program runs: those in storage, plus/minus its own create/drop.
+        let mut existing: std::collections::HashSet<String> = self
+            .storage
+            .read()
+            .list_knowledge_graphs()
+            .into_iter()
+            .collect();
+        let default_kg = self.config.storage.default_knowledge_graph.clone();
+
+        if non_admin.is_some() && running_kg.as_deref() == Some(INTERNAL_KG) {
+            return Err(internal_denied());
+        }
+        for line in lines {
+            let Ok(stmt) = statement::parse_statement(line) else {
+                continue;
+            };
+            // Layer 1: global role
+            if let Some(identity) = auth {
+                crate::auth::authorize_statement(&identity.role, &stmt)?;
+            }
+            // System KG: never the current KG of a non-admin, never named by anyone
+            if non_admin.is_some() && running_kg.as_deref() == Some(INTERNAL_KG) {
+                return Err(internal_denied());
+            }
+            if let statement::Statement::Meta(
+                MetaCommand::KgUse(name) | MetaCommand::KgDrop(name) | MetaCommand::KgCreate(name),
+            ) = &stmt
+            {
+                if name == INTERNAL_KG {
+                    return Err(internal_denied());
+                }
+            }
+            // Layer 2: per-KG role on the KG this statement acts on
+            if let Some(identity) = non_admin {
+                let target_kg = match &stmt {
+                    statement::Statement::Meta(
+                        MetaCommand::KgDrop(name) | MetaCommand::KgUse(name),
+                    ) => Some(name.as_str()),
+                    statement::Statement::Meta(
+                        MetaCommand::KgAclGrant { kg_name, .. }
+                        | MetaCommand::KgAclRevoke { kg_name, .. },
+                    ) => Some(kg_name.as_str()),
+                    statement::Statement::Meta(MetaCommand::KgAclList(kg_opt)) => kg_opt.as_deref(),
+                    // KG create doesn't target an existing KG; list/show/help are global
+                    statement::Statement::Meta(
+                        MetaCommand::KgCreate(_)
+                        | MetaCommand::KgList
+                        | MetaCommand::KgShow
+                        | MetaCommand::Help
+                        | MetaCommand::Quit
+                        | MetaCommand::Status,
+                    ) => None,
+                    // All other statements operate on the current KG
+                    _ => running_kg.as_deref(),
+                };
+                if let Some(kg) = target_kg {
+                    match self.get_kg_role_for_user(kg, &identity.username, &identity.role) {
+                        Some(kg_role) => crate::auth::authorize_kg_operation(&kg_role, &stmt)?,
+                        None => return Err("Access denied".to_string()),
+                    }
+                }
+            }
+            // Follow the executor's KG switches
+            if let statement::Statement::Meta(meta) = &stmt {
+                match meta {
+                    MetaCommand::KgUse(name) if existing.contains(name) => {
+                        running_kg = Some(name.clone());
+                    }
+                    MetaCommand::KgCreate(name) if !existing.contains(name) => {
+                        existing.insert(name.clone());
+                        running_kg = Some(name.clone());
+                    }
+                    MetaCommand::KgDrop(name)
+                        if running_kg.as_deref() != Some(name.as_str()) && *name != default_kg =>
+                    {
+                        existing.remove(name);
+                    }
+                    _ => {}
+                }
+            }
+        }
+        Ok(())
+    }
+
     /// Execute a program with optional session context and auth identity.
     ///
     /// This is the unified entry point for the WebSocket protocol. It handles:
@@ -4289,90 +4389,42 @@ impl Handler {
         };
         let effective_auth = refreshed_identity.as_ref().or(auth);
 
-        // Authorization check: if auth is provided, validate the statement
-        if let Some(identity) = effective_auth {
-            if let Ok(ref stmt) = statement::parse_statement(trimmed) {
-                crate::auth::authorize_statement(&identity.role, stmt)?;
-            }
-        }
-
-        // Protect _internal KG from direct access.
-        // Block both explicit commands AND sessions already bound to _internal.
-        let session_kg_owned: Option<String> = if knowledge_graph.is_none() {
-            session_id.and_then(|sid| self.sessions.session_kg(sid).ok())
+        // The program is executed one logical line at a time (see `QueryJob::execute`), so it is
+        // authorized one logical line at a time, on exactly the lines the executor will see.
+        let logical_lines: Vec<String> = join_continuation_lines(&strip_comments(&program))
+            .lines()
+            .map(str::trim)
+            .filter(|l| !l.is_empty())
+            .map(str::to_string)
+            .collect();
+        // A program consisting of exactly one statement (the WS protocol's normal case).
+        let single_stmt: Option<statement::Statement> = if logical_lines.len() == 1 {
+            statement::parse_statement(&logical_lines[0]).ok()
         } else {
             None
         };
-        let current_kg = knowledge_graph.as_deref().or(session_kg_owned.as_deref());
 
-        if let Some(identity) = effective_auth {
-            if identity.role != crate::auth::Role::Admin
-                && current_kg == Some(crate::auth::INTERNAL_KG)
-            {
-                return Err(format!(
-                    "Access denied: '{}' is a system knowledge graph",
-                    crate::auth::INTERNAL_KG
-                ));
-            }
+        // The KG the program starts executing on. `?` requests with a session run on the
+        // session's KG (query_program_with_session), everything else on the explicit KG,
+        // else the session's KG, else the storage default.
+        let is_query = trimmed.starts_with('?');
+        let session_kg_owned: Option<String> =
+            session_id.and_then(|sid| self.sessions.session_kg(sid).ok());
+        let start_kg: Option<String> = if is_query && session_id.is_some() {
+            session_kg_owned.clone()
+        } else {
+            knowledge_graph.clone().or_else(|| session_kg_owned.clone())
         }
-        if let Ok(ref stmt) = statement::parse_statement(trimmed) {
-            match stmt {
-                statement::Statement::Meta(
-                    statement::MetaCommand::KgUse(name)
-                    | statement::MetaCommand::KgDrop(name)
-                    | statement::MetaCommand::KgCreate(name),
-                ) if name == crate::auth::INTERNAL_KG => {
-                    return Err(format!(
-                        "Access denied: '{}' is a system knowledge graph",
-                        crate::auth::INTERNAL_KG
-                    ));
-                }
-                _ => {}
-            }
-        }
+        .or_else(|| {
+            self.storage
+                .read()
+                .current_knowledge_graph()
+                .map(str::to_string)
+        });
 
-        // Per-KG authorization: check if user has access to the target KG.
-        if let Some(identity) = effective_auth {
-            if identity.role != crate::auth::Role::Admin {
-                if let Ok(ref stmt) = statement::parse_statement(trimmed) {
-                    // Determine which KG the operation targets
-                    let target_kg = match stmt {
-                        statement::Statement::Meta(
-                            statement::MetaCommand::KgDrop(name)
-                            | statement::MetaCommand::KgUse(name),
-                        ) => Some(name.as_str()),
-                        statement::Statement::Meta(
-                            statement::MetaCommand::KgAclGrant { ref kg_name, .. }
-                            | statement::MetaCommand::KgAclRevoke { ref kg_name, .. },
-                        ) => Some(kg_name.as_str()),
-                        statement::Statement::Meta(statement::MetaCommand::KgAclList(
-                            ref kg_opt,
-                        )) => kg_opt.as_deref(),
-                        // KG create doesn't target an existing KG; list/show/help are global
-                        statement::Statement::Meta(
-                            statement::MetaCommand::KgCreate(_)
-                            | statement::MetaCommand::KgList
-                            | statement::MetaCommand::KgShow
-                            | statement::MetaCommand::Help
-                            | statement::MetaCommand::Quit
-                            | statement::MetaCommand::Status,
-                        ) => None,
-                        // All other statements operate on the current KG
-                        _ => current_kg,
-                    };
-
-                    if let Some(kg) = target_kg {
-                        if let Some(kg_role) =
-                            self.get_kg_role_for_user(kg, &identity.username, &identity.role)
-                        {
-                            crate::auth::authorize_kg_operation(&kg_role, stmt)?;
-                        } else {
-                            return Err("Access denied".to_string());
-                        }
-                    }
-                }
-            }
-        }
+        // Global role, `_internal` protection and per-KG authorization for every line,
+        // before anything is executed: a single refused line rejects the whole request.
+        self.authorize_program(effective_auth, start_kg.as_deref(), &logical_lines)?;
 
         // Any session-bound activity should keep the session alive.
         // If the session was reaped (e.g., after WS reconnect), log and continue
@@ -4385,8 +4437,8 @@ impl Handler {
         }
 
         // Fast path: intercept session meta commands that need SessionManager
-        if trimmed.starts_with('.') {
-            if let Ok(statement::Statement::Meta(ref meta)) = statement::parse_statement(trimmed) {
+        if let Some(statement::Statement::Meta(ref meta)) = single_stmt {
+            {
                 match meta {
                     MetaCommand::SessionList => {
                         let sid = session_id.ok_or_else(|| "No active session".to_string())?;
@@ -4485,7 +4537,7 @@ impl Handler {
         // In the WS protocol each statement is a separate request, so we must
         // persist them in the SessionManager (not in a request-local vector).
         if let Some(sid) = session_id {
-            if let Ok(ref stmt) = statement::parse_statement(trimmed) {
+            if let Some(ref stmt) = single_stmt {
                 match stmt {
                     statement::Statement::SessionRule(rule) => {
                         // Reject reserved '__' prefix to prevent shadowing internal relations.
@@ -4557,17 +4609,16 @@ impl Handler {
         // non-query input (e.g., ".kg use default" is not a valid IQL atom).
         // Note: SessionRule and Fact are already intercepted above and stored
         // in the SessionManager, so they never reach this point.
-        let is_query = trimmed.starts_with('?');
 
         // Detect KG create/drop before program is moved into query_program.
         // Extracting these from the parsed statement avoids fragile string matching
         // on the result messages.
-        let (kg_create_name, kg_drop_name) = match statement::parse_statement(trimmed) {
-            Ok(statement::Statement::Meta(statement::MetaCommand::KgCreate(name))) => {
-                (Some(name), None)
+        let (kg_create_name, kg_drop_name) = match single_stmt {
+            Some(statement::Statement::Meta(statement::MetaCommand::KgCreate(ref name))) => {
+                (Some(name.clone()), None)
             }
-            Ok(statement::Statement::Meta(statement::MetaCommand::KgDrop(name))) => {
-                (None, Some(name))
+            Some(statement::Statement::Meta(statement::MetaCommand::KgDrop(ref name))) => {
+                (None, Some(name.clone()))
             }
             _ => (None, None),
         };
@@ -4584,6 +4635,15 @@ impl Handler {
 
         // If KG was switched, update session binding
         if let (Some(ref new_kg), Some(sid)) = (&result.switched_kg, session_id) {
+            // A non-admin session is never bound to the system KG, whatever produced the switch.
+            if new_kg == crate::auth::INTERNAL_KG
+                && effective_auth.is_some_and(|i| i.role != crate::auth::Role::Admin)
+            {
+                return Err(format!(
+                    "Access denied: '{}' is a system knowledge graph",
+                    crate::auth::INTERNAL_KG
+                ));
+            }
             self.sessions.switch_kg(sid, new_kg)?;
         }
 
